@@ -16,8 +16,8 @@ EXTENDS Props
 CONSTANTS Ceilos, NT, Lattice, MaxPerMeas, WithVV, RowOrders, PrmSet,
           SliceOracle, GroupOracle, MergeWithExcl, GmmTimeOrder, FixedIds
 
-VARIABLES pc, prm, raw, data, flag, ids, tbl
-vars == <<pc, prm, raw, data, flag, ids, tbl>>
+VARIABLES pc, prm, raw, data, flag, ids, tbl, kraw   \* kraw: the mixture's own component count per group row (oracle output)
+vars == <<pc, prm, raw, data, flag, ids, tbl, kraw>>
 
 NoIds == [s |-> <<>>, g |-> <<>>, l |-> <<>>]
 NoTbl == [slices |-> <<>>, groups |-> <<>>, layers |-> <<>>]
@@ -90,10 +90,10 @@ DecisionBase(d, I, p) ==
   IF GmmTimeOrder THEN Base100(d, I, p, FALSE) ELSE WindowBase(d, OrderedMembers(d, I), p.p, p.lb)
 
 (* layering of all groups in table order, given a choice of component maps *)
-RECURSIVE LayerAll(_, _, _, _, _, _)
-LayerAll(d, g, gt, lids, choice, r) ==
-  IF r > Len(gt) THEN [l |-> lids, gt |-> gt]
-  ELSE IF SkipLayering(d, g, gt[r], prm) THEN LayerAll(d, g, gt, lids, choice, r + 1)   \* x stays -1
+RECURSIVE LayerAll(_, _, _, _, _, _, _)
+LayerAll(d, g, gt, lids, choice, r, k0s) ==
+  IF r > Len(gt) THEN [l |-> lids, gt |-> gt, k0s |-> k0s]
+  ELSE IF SkipLayering(d, g, gt[r], prm) THEN LayerAll(d, g, gt, lids, choice, r + 1, Append(k0s, 0))   \* x stays -1
   ELSE LET I    == MemIdx(g, gt[r].cid)
            f    == choice[r]
            k0   == Cardinality({f[h] : h \in DOMAIN f})
@@ -104,18 +104,18 @@ LayerAll(d, g, gt, lids, choice, r) ==
            l2   == IF kfin > 1
                    THEN [i \in Idx(d) |-> IF i \in I THEN LayerId(off, r, cmap[f[d[i].h]] - 1) ELSE lids[i]]
                    ELSE lids
-       IN LayerAll(d, g, [gt EXCEPT ![r].x = kfin], l2, choice, r + 1)
+       IN LayerAll(d, g, [gt EXCEPT ![r].x = kfin], l2, choice, r + 1, Append(k0s, k0))
 
 (* ---------------- the machine -------------------------------------------- *)
 Init == /\ pc = "new" /\ prm \in PrmSet
         /\ \E f \in [Meas -> MeasOpts], o \in RowOrders : raw = FrameRows(f, o)
         /\ Len(raw) > 0
-        /\ data = <<>> /\ flag = FALSE /\ ids = NoIds /\ tbl = NoTbl
+        /\ data = <<>> /\ flag = FALSE /\ ids = NoIds /\ tbl = NoTbl /\ kraw = <<>>
 
 Construct ==
   /\ pc = "new" /\ Len(Crop(raw, prm)) > 0       \* an empty cropped chunk is handled by Stage-level rules
   /\ pc' = "built" /\ data' = Crop(raw, prm) /\ flag' = HighFlag(raw, prm)
-  /\ UNCHANGED <<prm, raw, ids, tbl>>
+  /\ UNCHANGED <<prm, raw, ids, tbl, kraw>>
 
 FindSlices ==
   /\ pc = "built" /\ pc' = "sliced"
@@ -123,7 +123,7 @@ FindSlices ==
        LET s == SliceIds(data, lab) IN
        /\ ids' = [ids EXCEPT !.s = s]
        /\ tbl' = [tbl EXCEPT !.slices = Table(data, s, prm, 1)]
-  /\ UNCHANGED <<prm, raw, data, flag>>
+  /\ UNCHANGED <<prm, raw, data, flag, kraw>>
 
 FindGroups ==
   /\ pc = "sliced" /\ pc' = "grouped"
@@ -131,7 +131,7 @@ FindGroups ==
        LET g1 == MergeClose(data, g0, prm, MergeWithExcl) IN
        /\ ids' = [ids EXCEPT !.g = g1]
        /\ tbl' = [tbl EXCEPT !.groups = Table(data, g1, prm, -1)]
-  /\ UNCHANGED <<prm, raw, data, flag>>
+  /\ UNCHANGED <<prm, raw, data, flag, kraw>>
 
 FindLayers ==
   /\ pc = "grouped" /\ pc' = "layered"
@@ -139,10 +139,11 @@ FindLayers ==
          Opts(r) == IF SkipLayering(data, g, gt[r], prm) THEN {<<>>}
                     ELSE CompMaps(HeightSet(data, MemIdx(g, gt[r].cid)), NcompMax(data, g, gt[r])) IN
      \E choice \in {c \in [Idx(gt) -> UNION {Opts(r) : r \in Idx(gt)}] : \A r \in Idx(gt) : c[r] \in Opts(r)} :
-       /\ LET res == LayerAll(data, g, gt, [i \in Idx(data) |-> -2], choice, 1)
+       /\ LET res == LayerAll(data, g, gt, [i \in Idx(data) |-> -2], choice, 1, <<>>)
               l   == [i \in Idx(data) |-> IF res.l[i] = -2 THEN g[i] ELSE res.l[i]]
           IN /\ ids' = [ids EXCEPT !.l = l]
              /\ tbl' = [tbl EXCEPT !.groups = res.gt, !.layers = Table(data, l, prm, 0)]
+             /\ kraw' = res.k0s
   /\ UNCHANGED <<prm, raw, data, flag>>
 
 Next == Construct \/ FindSlices \/ FindGroups \/ FindLayers
@@ -175,13 +176,9 @@ Inv_C05 == /\ (pc = "layered" => /\ C05_Partition(data, ids) /\ C05_LayerInOneGr
            /\ (pc # "new" => C05_NoHitAltered(data, raw, prm))
            /\ \A w \in Levels : HasT(w) => C05_TableMatchesIds(tbl[w], ids[Fld(w)], Cardinality(IdsPresent(ids[Fld(w)])))
 Inv_C06g == HasT("groups") => C06_Groups(tbl.groups, prm)
-(* in the model every split keeps the mixture's count iff no re-merge happened; *)
-(* premise approximated soundly by "final count = number of distinct heights   *)
-(* capped at 3" is too weak here, so the model records it: x = k0 is implied   *)
-(* when the layers of the group number NcompMax                                *)
+(* premise "as many layers as the mixture model distinguishes": x = kraw *)
 Inv_C06l == pc = "layered" =>
-   C06_Layers(tbl.groups, tbl.layers, ids, prm,
-              [r \in Idx(tbl.groups) |-> tbl.groups[r].x = NcompMax(data, ids.g, tbl.groups[r])])
+   C06_Layers(tbl.groups, tbl.layers, ids, prm, [r \in Idx(tbl.groups) |-> tbl.groups[r].x = kraw[r]])
 Inv_C07 == pc # "new" => /\ C07_Flag(flag, raw, prm) /\ C07_Kept(data, raw, prm) /\ C07_NoMsa(data, flag, raw, prm)
 Inv_C17 == \A w \in Levels : HasT(w) =>
    SigRuleHolds([r \in Idx(tbl[w]) |-> tbl[w][r].okta], [r \in Idx(tbl[w]) |-> tbl[w][r].sig])
